@@ -44,6 +44,9 @@ ASSUME PrintT(<<"LAW", ToJson(MaskLawRow("coins", 3, 1, 2))>>)
 ASSUME \A n \in 2..4 : PrintT(<<"LAW", ToJson(MaskLawRow("ool", n, 1, n))>>)
 (* any two genes of a long genome are decided independently (positions 1, 64 and 128 apart) *)
 ASSUME \A a \in {1, 2, 3} : PrintT(<<"LAW", ToJson(MaskLawRow("pair", 2, a, D4))>>)
+(* EVERY gene of a long genome is decided with the configured rate (one coin per position; *)
+(* the conformance run tallies each of 200 positions, both implementations, separately)   *)
+ASSUME \A a \in {1, 2, 3} : PrintT(<<"LAW", ToJson(MaskLawRow("marginal", 1, a, D4))>>)
 (* an empty parent receives one new gene with the configured empty-genome rate: one coin *)
 ASSUME \A a \in Rates4 : PrintT(<<"LAW", ToJson(MaskLawRow("umad_empty", 1, a, D4))>>)
 (* 1/length on a long genome: the per-gene rate is 1/n also when n exceeds 16 bits; one coin of rate 1/n *)
